@@ -489,8 +489,14 @@ class ComponentAbsentConstraint(AbstractConstraint):
 
     def _testValue(self, value, idx):
         if value is not None:
-            raise error.ValueConstraintError(
-                'Component is not absent: %r' % value)
+            try:
+                cause = 'Component is not absent: %r' % (value,)
+
+            except ValueError:
+                # an integer with more digits than Python agrees to print
+                cause = 'Component is not absent'
+
+            raise error.ValueConstraintError(cause)
 
 
 class WithComponentsConstraint(AbstractConstraint):
